@@ -86,9 +86,14 @@ void ezc3d::DataNS::AnalogsNS::SubFrame::channel(const ezc3d::DataNS::AnalogsNS:
     if (idx == SIZE_MAX)
         _channels.push_back(channel);
     else{
-        if (idx >= nbChannels())
+        if (idx >= nbChannels()){
+            // channel may be an element of _channels, copy it before the vector grows
+            const ezc3d::DataNS::AnalogsNS::Channel source(channel);
             _channels.resize(idx+1);
-        _channels[idx] = channel;
+            _channels[idx] = source;
+        }
+        else
+            _channels[idx] = channel;
     }
 }
 
